@@ -157,13 +157,13 @@ class Task:
     """
     def __init__(s, tid, unit, enforce, contract_headers, vars, call, replace=(), defs=None, reach=(), bounded=None,
                  timeout=900, mem_gb=8, object_bits=10, extra_cbmc=(), harness_pre="", harness_post="", native=None,
-                 contract=None, loop_contracts=False, group=None, notes=None, stubs=(), nothrow=True, solver="cadical", split_post=False):
+                 contract=None, loop_contracts=False, group=None, notes=None, stubs=(), nothrow=True, solver="cadical", split_post=False, assumed=()):
         s.id, s.unit, s.enforce, s.headers, s.vars, s.call = tid, unit, enforce, list(contract_headers), list(vars), call
         s.replace = list(replace); s.defs = dict(defs or {}); s.reach = list(reach); s.bounded = bounded
         s.timeout, s.mem_gb, s.object_bits, s.extra_cbmc = timeout, mem_gb, object_bits, list(extra_cbmc)
         s.harness_pre, s.harness_post, s.native, s.contract = harness_pre, harness_post, native, contract
         s.loop_contracts = loop_contracts; s.group = group or tid; s.notes = notes; s.stubs = list(stubs); s.nothrow = nothrow
-        s.solver = solver; s.split_post = split_post
+        s.solver = solver; s.split_post = split_post; s.assumed = list(assumed)
         s.dir = None
 
     def mangled(s, alias):
@@ -216,6 +216,7 @@ class Task:
             enf = s.mangled(s.enforce); res["function"] = enf
             reps = [s.mangled(r) for r in s.replace]
             res["replaced"] = reps
+            res["assumed_contracts"] = [s.mangled(r) for r in s.assumed]      # replaced by a contract that NO task enforces
             d = s.dir
             rc, o, e, t = sh(["goto-cc", "--function", "harness", "task.c", "-o", "task.gb"], cwd=d, timeout=300)
             res["time"]["goto-cc"] = round(t, 2)
@@ -543,6 +544,7 @@ def run_check(prop, tier, tasks, units, level, extra_assumptions=(), trusted_bas
                                    "obligations": r["obligations"], "discharged": r["discharged"],
                                    "postconditions": r.get("n_postconditions"), "assigns_checks": r.get("n_assigns"), "unwinding_assertions": r.get("n_unwind"),
                                    "replaced_by_contract": [short_dem(x)[:200] for x in demangle(r.get("replaced") or []).values()] if r.get("replaced") else [],
+                                   "assumed_not_discharged_contracts": [short_dem(x)[:200] for x in demangle(r.get("assumed_contracts") or []).values()] if r.get("assumed_contracts") else [],
                                    "bounded": r.get("bounded"), "back_end": "goto-instrument --dfcc + cbmc 6.11 / cadical", "cbmc_s": r["time"].get("cbmc"), "solver_s": r.get("solver_s"),
                                    "why": (r.get("why") or "")[:400] or None})
     samples = []
